@@ -72,6 +72,11 @@ func (c09) Gen(seed uint64, idx int, tier string) *Scenario {
 	sc := &Scenario{Prop: "C09", Seed: seed, Idx: idx}
 	long := r.Chance(1, 3)
 	p := genAccepted(r, long, tier)
+	if r.Chance(1, 6) {
+		// more than 240 constants or locals: multi-byte operands, also right at the end of the code (POPN before RET)
+		gen.AddWide(r, p, r.Range(236, 300), r.Chance(1, 2))
+		p.Layout(r, gen.DefaultCfg(r))
+	}
 	sc.Src = p.Src
 	sc.Class = "plain"
 	if long {
